@@ -214,9 +214,27 @@ def rule_4(ctx):
     ctx.floor(4, 'recompilation facts')
 
 
+def rule_5(ctx):
+    """The formula ASTs are part of the persisted state (XLFormula.ast is pickled): whatever an evaluation leaves on a node
+    must be rebuildable by the JSON persistence. Functions, signatures, lambdas, generators are not."""
+    from . import corelemma
+    n = 0
+    for s in corelemma.node_state_stores(ctx):
+        n += 1
+        short = s['cref'].split(':')[-1]
+        ctx.expect(s['unsafe'] is None, s['node'], f'{short}: object left on a persisted node by an evaluation',
+                   f'{short}.{s["fn"].name} stores {s["unsafe"]} on the node (attribute {s["attr"]}): after an evaluation the model can be '
+                   'written by persist_to_json_file but construct_from_json_file cannot rebuild that object (jsonpickle restores it as '
+                   'plain lists/dicts or fails)')
+    for cref in corelemma.node_classes(ctx):
+        ctx.ok(ctx.res.lookup(cref)[1], f'{cref.split(":")[-1]}: evaluation-path stores enumerated')
+    ctx.floor(4, 'node classes')
+
+
 RULES = [
     ('C12.1', 'writer and reader agree on keys, attributes and options', rule_1),
     ('C12.2', 'compression predicate agrees', rule_2),
     ('C12.3', 'stored value and error classes are reconstructible', rule_3),
     ('C12.4', 'restoring recompiles the formulas', rule_4),
+    ('C12.5', 'evaluation leaves only rebuildable objects on the persisted formula nodes', rule_5),
 ]
